@@ -118,6 +118,19 @@ func GenForeign(r *rand.Rand, j int) ForeignSpec {
 		return []string{"a", "b", "c", "docs", "f1", "f2", "img", "src", "lib", "x", "y", ".profile", "profile", ".env", "Docs", "rel_1", "rel-1", "100%", "100x"}[r.Intn(19)]
 	}
 	have := map[string]bool{"": true}
+	if j%7 == 6 {
+		// sibling directories whose names SQLite's LIKE does not tell apart (ASCII case, the
+		// wildcards _ and %), each with a child of its own
+		pair := [][2]string{{"Docs", "docs"}, {"rel_1", "rel-1"}, {"100%", "100x"}}[r.Intn(3)]
+		{
+			for k, d := range pair {
+				s.Members = append(s.Members, ForeignMember{Rel: d, Dir: true, Mode: 0o755},
+					ForeignMember{Rel: d + "/" + []string{"left", "right"}[k], Len: 100 + 100*k, Seed: r.Intn(1000), Mode: 0o644})
+				have[d], have[d+"/"+[]string{"left", "right"}[k]] = true, true
+				dirs = append(dirs, d)
+			}
+		}
+	}
 	n := 2 + r.Intn(9)
 	for k := 0; k < n; k++ {
 		d := dirs[r.Intn(len(dirs))]
